@@ -442,3 +442,61 @@ def r_kp_defaults(cx):
     cx.ob("R-KP-DEFAULTS", "overrides", ok,
           "-z overrides element 2 and -t overrides element 3" if ok else
           "-z / -t do not override exactly elements 2 / 3 (found %s)" % got, cx.where(f.d["span"]))
+
+
+# ---------------------------------------------------------------------------------------------------------------------
+# R-BATCH-RESET (C20): a transformed batch is dropped from the buffer before reading goes on
+
+@rule("R-BATCH-RESET", ["C20"])
+def r_batch_reset(cx):
+    """kp's main reads tuples into a buffer and hands the buffer to transform() whenever it is full. From such a call
+    inside the reading loop, every path back to the loop header passes through a call that empties the buffer
+    (Vec::truncate / clear on the very vector handed to transform): otherwise the tuples of the batch are transformed
+    and printed a second time with the next batch."""
+    f = kp_fn(cx, "main")
+    n = 0
+    for lp in f.loops():
+        for bb, t in f.calls():
+            if bb not in lp.body or _callee(f, t) != "transform":
+                continue
+            # innermost loop containing the call that also contains the push
+            inner = f.innermost_loop(bb)
+            if inner is None or inner.header != lp.header:
+                continue
+            args = f.arg_terms(bb)
+            buf = None
+            for a in args:
+                if a[0] == "refplace" and a[1]:
+                    buf = a[2]   # the buffer is the one handed over mutably
+            n += 1
+            resets = set()
+            for b2, t2 in f.calls():
+                c2 = f.callee(t2) or ""
+                if b2 in lp.body and (c2.endswith("Vec::<T, A>::truncate") or c2.endswith("Vec::<T, A>::clear")):
+                    a2 = f.arg_terms(b2)
+                    if a2 and a2[0][0] == "refplace" and (buf is None or a2[0][2] == buf):
+                        if not c2.endswith("truncate") or (len(a2) > 1 and is_zero(a2[1])):
+                            resets.add(b2)
+            # is there a path from the call's continuation to a latch of the loop that avoids all resets?
+            start = t.get("target")
+            seen = set()
+            work = [start] if start is not None else []
+            leak = False
+            while work:
+                x = work.pop()
+                if x in seen or x in resets or x not in lp.body:
+                    continue
+                seen.add(x)
+                if x == lp.header:
+                    leak = True
+                    break
+                work.extend(f.succ[x])
+            cx.ob("R-BATCH-RESET", "main/transform%d" % (n - 1), not leak,
+                  "after the intermediate transform() the buffer is emptied before the next line is read" if not leak else
+                  "kp main: after transforming a full batch the reading loop can continue without emptying the buffer: "
+                  "the batch is transformed and printed again with the next one", cx.where(t["span"]))
+    cx.count("R-BATCH-RESET", "in_loop_transform_calls", n)
+
+
+def is_zero(t):
+    return t[0] == "const" and t[2] == 0 and not isinstance(t[2], bool)
